@@ -17,6 +17,7 @@
 # LIABILITY, WHETHER IN AN ACTION OF CONTRACT, TORT OR OTHERWISE, ARISING
 # FROM, OUT OF OR IN CONNECTION WITH THE SOFTWARE OR THE USE OR OTHER DEALINGS
 # IN THE SOFTWARE.
+from . import as_table_cell
 from .run_id import RunId
 
 
@@ -44,8 +45,8 @@ class Measurement(object):
 
         return [str(self.invocation), str(self.iteration),
                 val,
-                self.unit,
-                self.criterion] + self.run_id.as_str_list(persisted_run_id)
+                as_table_cell(self.unit),
+                as_table_cell(self.criterion)] + self.run_id.as_str_list(persisted_run_id)
 
     @classmethod
     def from_str_list(cls, id_to_run_id: list[RunId], str_list, line_number=None, filename=None):
